@@ -11,7 +11,7 @@
    with the fitted parameter `tfit t pfit` computed from the training panel and then held fixed. *)
 From Coq Require Import QArith List Bool ZArith Arith Permutation.
 Require Import SkV.Lib.Base SkV.C14.Model SkV.C16.Model SkV.C16.Proofs.
-Require SkV.C15.Model SkV.C15.Main.
+Require SkV.C15.Model SkV.C15.Proofs.
 Import ListNotations.
 Open Scope nat_scope.
 
@@ -161,11 +161,14 @@ Theorem C16_fitted_parameter_must_be_held_fixed :
 Proof. exact refit_on_single_instance_differs. Qed.
 Print Assumptions C16_fitted_parameter_must_be_held_fixed.
 
+(* wf_rows n c T x := C15's wf_panel n c T (n_rows x): n >= 1 instances x c >= 1 variables x
+   T >= 2 time points, rectangular. *)
+
 (* 14. containers at apply time: the same data as a 3-D array or as a nested DataFrame, through
        check_X with any admissible coercion, gives the same rows *)
 Theorem C16_container_irrelevant_at_apply : forall (V O : Type) n c T (x : K.nested V)
     (to_np to_pd : bool) (f : list (list V) -> O),
-  SkV.C15.Main.wf_nested n c T x -> to_np && to_pd = false ->
+  wf_rows n c T x -> to_np && to_pd = false ->
   est_apply to_np to_pd f (K.RA (K.nested_to_3d x)) = est_apply to_np to_pd f (K.RN x) /\
   est_apply to_np to_pd f (K.RN x) = Ok (apply_map f (K.n_rows x)).
 Proof. exact @apply_container_irrelevant. Qed.
@@ -174,7 +177,7 @@ Print Assumptions C16_container_irrelevant_at_apply.
 (* 15. containers at fit time: the fitted state is the same *)
 Theorem C16_container_irrelevant_at_fit : forall (V Y Th : Type) n c T (x : K.nested V)
     (to_np to_pd : bool) (fit : K.panel V -> Y -> Th) (y : Y),
-  SkV.C15.Main.wf_nested n c T x -> to_np && to_pd = false ->
+  wf_rows n c T x -> to_np && to_pd = false ->
   est_fit to_np to_pd fit (K.RA (K.nested_to_3d x)) y = est_fit to_np to_pd fit (K.RN x) y /\
   est_fit to_np to_pd fit (K.RN x) y = Ok (fit (K.n_rows x) y).
 Proof. exact @fit_container_irrelevant. Qed.
@@ -184,7 +187,7 @@ Print Assumptions C16_container_irrelevant_at_fit.
        conversion back (from C15's round-trip theorem); labels and cell kind are never read *)
 Theorem C16_apply_after_container_roundtrip : forall (V O : Type) n c T (x : K.nested V)
     (to_np to_pd : bool) (f : list (list V) -> O) cn k,
-  SkV.C15.Main.wf_nested n c T x -> to_np && to_pd = false ->
+  wf_rows n c T x -> to_np && to_pd = false ->
   est_apply to_np to_pd f (K.RN (K.a3_to_nested cn k (K.nested_to_3d x))) =
   est_apply to_np to_pd f (K.RN x).
 Proof. exact @apply_after_roundtrip. Qed.
@@ -201,7 +204,7 @@ Print Assumptions C16_labels_and_cell_kind_not_read.
 (* 17. the closed-form family on containers: same fitted parameter, same transform *)
 Theorem C16_closed_form_container_irrelevant : forall t n c T (x : K.nested Q) n' c' T'
     (xfit : K.nested Q) (to_np to_pd : bool),
-  SkV.C15.Main.wf_nested n c T x -> SkV.C15.Main.wf_nested n' c' T' xfit ->
+  wf_rows n c T x -> wf_rows n' c' T' xfit ->
   to_np && to_pd = false ->
   tfit_rep t to_np to_pd (K.RA (K.nested_to_3d xfit)) = tfit_rep t to_np to_pd (K.RN xfit) /\
   tfit_rep t to_np to_pd (K.RN xfit) = Ok (tfit t (K.n_rows xfit)) /\
@@ -220,5 +223,5 @@ Example C16_nonvacuous :
     Ok [[[1%Q; 2%Q; 3%Q]]; [[4%Q; 5%Q; 0%Q]]; [[6%Q; 0%Q; 0%Q]]] /\
   tapply (TPad None 0%Q) (tfit (TPad None 0%Q) ex_panel) (pick [2; 0; 1] ex_panel) =
     Ok (pick [2; 0; 1] [[[1%Q; 2%Q; 3%Q]]; [[4%Q; 5%Q; 0%Q]]; [[6%Q; 0%Q; 0%Q]]]) /\
-  SkV.C15.Main.wf_nested 3 1 2 ex_nested.
+  wf_rows 3 1 2 ex_nested.
 Proof. exact ex_nonvacuous. Qed.
